@@ -504,7 +504,7 @@ func runShard(e *Engine, self, id, tier string, seed int64, shard, nshards, only
 		cmd.Stderr = lf
 		cmd.Env = append(os.Environ(), "VERIF_WORKER=1")
 		if e.Race {
-			cmd.Env = append(cmd.Env, fmt.Sprintf("GORACE=halt_on_error=0 history_size=5 log_path=%s/race-%d-%d", logdir, shard, attempt))
+			cmd.Env = append(cmd.Env, fmt.Sprintf("GORACE=halt_on_error=0 exitcode=0 history_size=5 log_path=%s/race-%d-%d", logdir, shard, attempt))
 		}
 		if err := cmd.Start(); err != nil {
 			lf.Close()
